@@ -79,6 +79,7 @@ var goFnList = []fnSpec{
 	{"Time", "datacodec", "ConvertTimeToEpochMillis", ""}, {"Time", "datacodec", "ConvertEpochMillisToTime", ""},
 	{"Time", "datacodec", "ConvertTimeToEpochDays", ""}, {"Time", "datacodec", "ConvertEpochDaysToTime", ""},
 	{"Time", "datacodec", "ConvertDurationToNanosOfDay", ""}, {"Time", "datacodec", "ConvertNanosOfDayToDuration", ""},
+	{"Time", "datacodec", "ConvertTimeToNanosOfDay", ""},
 	{"Vint", "primitive", "encodeZigZag", ""}, {"Vint", "primitive", "decodeZigZag", ""},
 	{"Vint", "primitive", "LengthOfUnsignedVint", ""}, {"Vint", "primitive", "LengthOfVint", ""},
 	{"Crc", "crc", "ChecksumKoopman", ""},
@@ -94,6 +95,7 @@ type fnGen struct {
 	extra   []string          // extra parameters (accessor results), in order of first use
 	extraTy map[string]gty
 	opaque  map[string]string // parameter name → "time" | "struct" | "ignore"
+	utc     map[string]bool   // time.Time parameter has been replaced by its UTC() form (`t = t.UTC()`)
 	named   []string          // named results
 	namedTy []gty
 	results []gty
@@ -252,7 +254,15 @@ func (g *fnGen) accessor(e ast.Expr) (string, bool) {
 		}
 		switch sel.Sel.Name {
 		case "Unix", "Nanosecond":
+			// the same in every location
 			return g.addExtra(id.Name+"_"+sel.Sel.Name, g.exprTy(e)), true
+		case "Hour", "Minute", "Second":
+			// wall-clock fields depend on the location: the parameter says which clock is read
+			clock := "_local_"
+			if g.utc[id.Name] {
+				clock = "_UTC_"
+			}
+			return g.addExtra(id.Name+clock+sel.Sel.Name, g.exprTy(e)), true
 		}
 	case *ast.SelectorExpr:
 		id, ok := x.X.(*ast.Ident)
@@ -756,6 +766,20 @@ func (g *fnGen) sub(stmts []ast.Stmt, tail string) string {
 
 func (g *fnGen) assign(x *ast.AssignStmt) string {
 	info := g.pkg.TypesInfo
+	// t = t.UTC() on a time.Time parameter
+	if x.Tok == token.ASSIGN && len(x.Lhs) == 1 && len(x.Rhs) == 1 {
+		if id, ok := x.Lhs[0].(*ast.Ident); ok && g.opaque[id.Name] == "time" {
+			if c, ok := x.Rhs[0].(*ast.CallExpr); ok && len(c.Args) == 0 {
+				if sel, ok := c.Fun.(*ast.SelectorExpr); ok && sel.Sel.Name == "UTC" {
+					if r, ok := sel.X.(*ast.Ident); ok && r.Name == id.Name {
+						g.utc[id.Name] = true
+						return ""
+					}
+				}
+			}
+			g.fail(x, "unsupported assignment to a time.Time parameter")
+		}
+	}
 	names := func() []string {
 		var ns []string
 		for _, l := range x.Lhs {
@@ -995,7 +1019,7 @@ func genGoFn(pkgs map[string]*packages.Package, group string) {
 		if fd == nil {
 			fatalf("gofn: function %s.%s not found", spec.pkg, spec.name)
 		}
-		g := &fnGen{pkg: p, spec: spec, fd: fd, known: known, extraTy: map[string]gty{}, opaque: map[string]string{}, scope: map[string]gty{}}
+		g := &fnGen{pkg: p, spec: spec, fd: fd, known: known, extraTy: map[string]gty{}, opaque: map[string]string{}, utc: map[string]bool{}, scope: map[string]gty{}}
 		lname := spec.name
 		if i := strings.Index(lname, "."); i >= 0 {
 			lname = lname[i+1:]
@@ -1075,6 +1099,13 @@ func genGoFn(pkgs map[string]*packages.Package, group string) {
 			file = file[i:]
 		}
 		fmt.Fprintf(&w, "/-- `%s` (%s) -/\ndef %s %s : %s :=\n%s\n\n", spec.name, file, lname, strings.Join(params, " "), resTy, indent(pre+body, "  "))
+		if len(g.extra) > 0 {
+			var q []string
+			for _, e := range g.extra {
+				q = append(q, fmt.Sprintf("%q", e))
+			}
+			fmt.Fprintf(&w, "/-- what `%s` reads of its non-integer parameters, in the order of the parameters above -/\ndef %s_reads : List String := [%s]\n\n", spec.name, lname, strings.Join(q, ", "))
+		}
 		known[spec.pkg+"."+lname] = lname
 	}
 	w.WriteString("end Cql.Gen.GoFn\n")
